@@ -13,14 +13,14 @@ struct Send { int dst = 0, flags = 0, src_own = 0; };
 struct Sender { int in_pool = 0, pool_idx = 0; std::vector<Send> sends; };
 struct Fault { int fn = 0, k = 0, err = 0; };
 struct MsgCase {
-  int nthreads = 1, skip_first = 0, stall_dst = 255, burst = 0, burst_flags = 0, late_burst = 0, late_dst = 0, race_n = 0, race_dst = 0, race_flags = 0, pool_flags = 0, late_self = 0, selfarg = 0, late_by_self = 0, pvt_sources = 0;
+  int nthreads = 1, skip_first = 0, stall_dst = 255, burst = 0, burst_flags = 0, late_burst = 0, late_dst = 0, race_n = 0, race_dst = 0, race_flags = 0, pool_flags = 0, late_self = 0, selfarg = 0, late_by_self = 0, pvt_sources = 0, nested_sync = 0;
   std::vector<int> aops;  // triples alloc_on, dst, free_on (255 = outside / NULL)
   std::vector<Sender> senders;
   Bytes plan;
   std::vector<Fault> faults;
   std::string ser() const {
     Writer w;
-    w.i("nthreads", nthreads).i("skip_first", skip_first).i("stall_dst", stall_dst).i("burst", burst).i("burst_flags", burst_flags).i("late_burst", late_burst).i("late_dst", late_dst).i("race_n", race_n).i("race_dst", race_dst).i("race_flags", race_flags).i("pool_flags", pool_flags).i("late_self", late_self).i("selfarg", selfarg).i("late_by_self", late_by_self).i("pvt_sources", pvt_sources);
+    w.i("nthreads", nthreads).i("skip_first", skip_first).i("stall_dst", stall_dst).i("burst", burst).i("burst_flags", burst_flags).i("late_burst", late_burst).i("late_dst", late_dst).i("race_n", race_n).i("race_dst", race_dst).i("race_flags", race_flags).i("pool_flags", pool_flags).i("late_self", late_self).i("selfarg", selfarg).i("late_by_self", late_by_self).i("pvt_sources", pvt_sources).i("nested_sync", nested_sync);
     { std::vector<long long> a(aops.begin(), aops.end()); w.iv("aops", a); }
     w.i("nsenders", (long long)senders.size());
     for (size_t i = 0; i < senders.size(); i++) {
@@ -40,7 +40,7 @@ struct MsgCase {
     c.nthreads = (int)r.i("nthreads", 1); c.skip_first = (int)r.i("skip_first"); c.stall_dst = (int)r.i("stall_dst", 255);
     c.burst = (int)r.i("burst"); c.burst_flags = (int)r.i("burst_flags"); c.late_burst = (int)r.i("late_burst"); c.late_dst = (int)r.i("late_dst");
     c.race_n = (int)r.i("race_n"); c.race_dst = (int)r.i("race_dst"); c.race_flags = (int)r.i("race_flags");
-    c.pool_flags = (int)r.i("pool_flags"); c.late_self = (int)r.i("late_self"); c.selfarg = (int)r.i("selfarg"); c.late_by_self = (int)r.i("late_by_self"); c.pvt_sources = (int)r.i("pvt_sources");
+    c.pool_flags = (int)r.i("pool_flags"); c.late_self = (int)r.i("late_self"); c.selfarg = (int)r.i("selfarg"); c.late_by_self = (int)r.i("late_by_self"); c.pvt_sources = (int)r.i("pvt_sources"); c.nested_sync = (int)r.i("nested_sync");
     for (long long v : r.iv("aops")) c.aops.push_back((int)v);
     int n = (int)r.i("nsenders");
     for (int i = 0; i < n; i++) {
@@ -260,6 +260,7 @@ static Verdict evaluate(const MsgCase &c, const c05_out &o, bool &hang) {
   if (direct_taken) label("direct_call_path");
   if (pvt_sends && c.nthreads >= 2) label("virtual_thread_destination");
   if (c.stall_dst != 255 && c.burst > 2048) label("queue_full_burst");
+  if (c.stall_dst != 255 && c.nested_sync && c.nthreads >= 2) label("handler_issues_sync_broadcast_mid_batch");
   if (o.nlate) label(o.nlate > 1024 ? "late_burst_after_shutdown_gt_1024" : "late_burst_after_shutdown");
   if (o.nrace) label("sends_racing_with_shutdown");
   if (c.pool_flags & 2) label("pool_with_CLOEXEC");
@@ -278,6 +279,7 @@ static Verdict run_case(const MsgCase &c) {
   scn->stall_dst = (uint8_t)c.stall_dst;
   scn->burst = (uint16_t)std::min(4000, c.burst);
   scn->burst_flags = (uint8_t)c.burst_flags;
+  scn->nested_sync = (uint8_t)(c.nested_sync != 0);
   scn->late_burst = (uint16_t)std::min(1990, std::max(0, c.late_burst)); scn->late_dst = (uint8_t)c.late_dst;
   scn->race_n = (uint8_t)std::min(200, std::max(0, c.race_n)); scn->race_dst = (uint8_t)c.race_dst; scn->selfarg = (uint8_t)c.selfarg; scn->late_by_self = (uint8_t)c.late_by_self; scn->pvt_sources = (uint8_t)c.pvt_sources;
   scn->naops = (uint8_t)std::min<size_t>(8, c.aops.size() / 3);
@@ -342,6 +344,7 @@ static rc::Gen<MsgCase> genCase() {
       if (c.stall_dst >= c.nthreads) c.stall_dst = 255;
       c.burst = *range<int>(2040, 2120);
       c.burst_flags = *rc::gen::element(0, 4, 4, 6);
+      c.nested_sync = *range<int>(0, 1);  // the first burst message's handler synchronises with the other threads (needs >= 2 threads)
     }
     if (*range<int>(0, 7) == 0) {
       // sends accepted between tp_shutdown() and the moment the destination sees its stop message (it is held in a callback)
